@@ -1,12 +1,15 @@
 """C03 -- released resources come back exactly once and completely.
 Scheduler side: the node map, the holder count and capacity restoration over random scheduler histories.
 Executor side : every task the executor received asks for its release exactly once, whatever way it ends and
-whichever thread ends it (harness/execside.py)."""
-from .c01 import SchedProp
+whichever thread ends it (harness/execside.py).
+Application side: `Pilot.nodelist` -- release_slots gives back exactly what find_slots took, on the node it took it
+from (also when node names repeat), and a failed find_slots rolls back completely (harness/appslots.py)."""
+from .c01 import SchedProp, APP_TRUSTED, APP_RULE
 from .execside import ExecSide
+from .sides import Sides, Spec
 
 
-class C03(ExecSide, SchedProp):
+class C03Sched(ExecSide, SchedProp):
     id = 'C03'
     module = 'c03'
     props_files = ['Props/C03.v']
@@ -15,6 +18,7 @@ class C03(ExecSide, SchedProp):
                'app_supplied:map_is_initial_plus_held', 'app_supplied:active_count_is_holders',
                'app_supplied:quiescent_capacity_restored'] + ['exec:unscheduled_once']
     exec_sel = ['unscheduled_once']
+    exec_total = 7               # scheduler + executor clauses (further clauses follow in C03)
     extra_targets = SchedProp.extra_targets + ['Exec/Oracle.vo']
     model_targets = SchedProp.model_targets + ['Exec/Oracle.vo']
     trusted = SchedProp.trusted + [ExecSide.exec_trusted]
@@ -57,6 +61,17 @@ class C03(ExecSide, SchedProp):
         return row
     rule = ('random scheduler histories as for C01, most of them ending with the release of every started task; '
             'non-trivial = >= 2 tasks held simultaneously and >= 1 task waited; ' + ExecSide.exec_rule)
+
+
+class C03(Sides, C03Sched):
+    side_specs = [Spec('app', 'appslots', ['release_restores', 'failed_find_leaves_unchanged'],
+                       only=lambda c: isinstance(c, dict) and c.get('kind') in ('seq', 'float'))]
+    clauses = C03Sched.clauses + side_specs[0].clause_names()
+    extra_targets = C03Sched.extra_targets + ['AppSlots/Oracle.vo', 'AppSlots/Proofs.vo']
+    model_targets = C03Sched.model_targets + ['AppSlots/Oracle.vo']
+    trusted = C03Sched.trusted + [APP_TRUSTED + '; cases with occupations that are no multiples of 1/64 (0.1, 1/3, ...) '
+                                  'are judged on the implementation\'s own numbers, counted exactly in 1/2^60']
+    rule = C03Sched.rule + '; ' + APP_RULE + '; float occupations 0.1 .. 0.7, 1/3'
 
 
 PROP = C03()
